@@ -50,6 +50,9 @@ pub struct Run {
     pub assumptions: Vec<String>,
     /// if set, evidence is written to this file name instead of <prop>.json (used for sub-runs)
     pub evidence_name: Option<String>,
+    /// set when the exploration turned out (partly) vacuous, e.g. a base request that must be
+    /// accepted was refused: reported as a machinery failure unless a violation explains it
+    pub vacuity: Option<String>,
 }
 
 pub fn machinery_failure(msg: &str) -> ! {
@@ -72,6 +75,7 @@ impl Run {
             order: vec![],
             assumptions: vec![],
             evidence_name: None,
+            vacuity: None,
         }
     }
 
@@ -95,6 +99,12 @@ impl Run {
             key.to_string(),
             Violation { key: key.to_string(), what: what.to_string(), replay, count: 1 },
         );
+    }
+
+    pub fn vacuous(&mut self, msg: &str) {
+        if self.vacuity.is_none() {
+            self.vacuity = Some(msg.to_string());
+        }
     }
 
     pub fn violation_count(&self) -> usize {
@@ -180,6 +190,8 @@ impl Run {
         );
         if new_count > 0 {
             1
+        } else if let Some(v) = &self.vacuity {
+            machinery_failure(&format!("vacuous exploration: {}", v))
         } else {
             0
         }
